@@ -367,7 +367,59 @@ def check_preserve(ctx):
         ctx.check(len(ln) >= 1, inst, "PIN", b.path, "and the number of records per batch", None)
 
 
+def check_mask(ctx):
+    """the read-only scan does not replay the allocation journal, it *masks* the journaled extents with a forward cursor;
+    that is faithful to a real recovery only if the cursor walks the extents in ascending start order from index 0"""
+    from rules import roles
+    inst = "C15.mask"
+    b = ctx.fn("FeoxStore::scan_and_rebuild_indexes", inst)
+    if b is None:
+        return
+    rj = ctx.sites(b, R.call("DiskIO::read_allocation_journal"), inst, exact=1)
+
+    def on_journal(bb, n):
+        e = R.recv_expr(bb, n)
+        return any(c.nid in rj for c in e.calls()) or "allocation_journal" in names_of(bb, e) or roles.name_of(bb, roles.recv_local(bb, n, 0) or -1) == "allocation_journal"
+    gets = ctx.sites(b, R.call("slice::get", "Vec::get").filter(on_journal, "on the allocation journal"), inst, exact=1)
+    sorts = ctx.sites(b, R.call("slice::sort_unstable_by_key", "slice::sort_by_key", "slice::sort_unstable_by", "slice::sort_by", "slice::sort", "slice::sort_unstable")
+                      .filter(on_journal, "on the allocation journal"), inst, exact=1)
+    R.dom(ctx, inst, b, sorts, gets, "the masking cursor only ever walks a journal sorted by start sector", a_desc="allocation_journal.sort_unstable_by_key(start)")
+    for s_ in sorts:
+        ev = b.nodes[s_].ev
+        if R.callee_name(ev).endswith("by_key"):
+            from rules.common import closure_carriers
+            cls = [c for c in ctx.prog.closures_of(b) if s_ in closure_carriers(b, c)]
+            ok = False
+            for c in cls:
+                ds = c.defs.get(0, [])
+                v = A.tracer(c).node_value(ds[0]) if len(ds) == 1 else None
+                ok = v is not None and v.k == "field" and str(v.extra[1]) == "0" and v.has_arg(idx=2)
+            ctx.check(ok, inst, "PIN", b.path, "the sort key is the extent's start sector (.0)", b.where(s_))
+    ro_t = A.pred_edges(b, lambda e: e.has_field("FeoxStore", "read_only") and e.k != "bin", "true")
+    R.guard(ctx, inst, b, gets, ro_t, "extents are masked only on a read-only open (a writable open replays them instead)")
+    # the cursor starts at 0 and only ever advances by one
+    for g in gets:
+        ix = R.arg_expr(b, b.nodes[g], 1)
+        ls = [x.extra for x in ix.walk() if x.k == "local"]
+        ctx.check(len(ls) == 1, inst, "anchor", b.path, "the cursor is one local", b.where(g))
+        for l in ls:
+            for d in b.defs.get(l, []):
+                n = b.nodes[d]
+                v = A.tracer(b, transparent=False).node_value(d)
+                init = v.k == "const" and (v.extra or {}).get("val") == 0
+                step = v.k == "bin" and v.extra in ("Add", "AddWithOverflow", "AddUnchecked") and any(x.k == "const" and (x.extra or {}).get("val") == 1 for x in v.a) \
+                    or (v.k == "field" and v.a and v.a[0].k == "bin" and v.a[0].extra.startswith("Add") and any(x.k == "const" and (x.extra or {}).get("val") == 1 for x in v.a[0].a))
+                ctx.check(init or step, inst, "PIN", b.path, "the cursor starts at 0 and advances by exactly one extent", b.where(d), {"def": v.show()[:80]})
+    # the writable twin: replay happens before the first block is scanned
+    rp = ctx.sites(b, R.call("DiskIO::replay_allocation_journal"), inst, exact=1)
+    for x in rp:
+        e = R.arg_expr(b, b.nodes[x], 1)
+        ctx.check(any(c.nid in rj for c in e.calls()) or "allocation_journal" in names_of(b, e), inst, "PROVENANCE", b.path,
+                  "the journal replayed is the one just read", b.where(x))
+
+
 def check(ctx):
+    check_mask(ctx)
     check_ro(ctx)
     check_dest(ctx)
     check_order(ctx)
